@@ -1175,7 +1175,9 @@ class AstEval:
             local_var = None
             if arg.name in self.sym_table and isinstance(self.sym_table[arg.name], EvalLocalVar):
                 local_var = self.sym_table[arg.name]
-            code = compile(ast.Module(body=[arg], type_ignores=[]), filename=self.filename, mode="exec")
+            # attribute the compiled code to the script file, also when it is compiled from a trigger's context
+            filename = self.global_ctx.get_file_path() or self.filename
+            code = compile(ast.Module(body=[arg], type_ignores=[]), filename=filename, mode="exec")
             exec(code, self.global_sym_table, self.sym_table)  # pylint: disable=exec-used
 
             func = self.sym_table[arg.name]
@@ -1261,6 +1263,9 @@ class AstEval:
         )
         func = self.sym_table[name]
         del self.sym_table[name]
+        # name it the way Python names a lambda (eg, in tracebacks)
+        func.__code__ = func.__code__.replace(co_name="<lambda>", co_qualname="<lambda>")
+        func.__name__ = func.__qualname__ = "<lambda>"
         return func
 
     async def ast_asyncfunctiondef(self, arg):
